@@ -134,7 +134,7 @@ def trace_float_grid(repo, max_tick=20000):
 def trace_replay_random(repo, seed=0, n=300):
     """C13 bounded: random trace files through the real csv reader and WorkloadTrace; each pipeline once, never early,
     at the first tick whose start (t / tps) is at or after its arrival, file order kept, late arrivals not delivered."""
-    import io, random
+    import io, random, math
     sys.path.insert(0, repo)
     logging.disable(logging.CRITICAL)
     from eudoxia.workload.csv_io import CSVWorkloadReader
@@ -143,21 +143,22 @@ def trace_replay_random(repo, seed=0, n=300):
     kinds, first, total = {}, {}, 0
     for case in range(n):
         tps = rng.choice([1, 2, 3, 10, 100, 1000])
-        t, arrs = 0.0, []
+        # a trace may start before time 0 (the reader accepts any float): such pipelines are due in tick 0
+        t, arrs = (0.0 if rng.random() < 0.75 else -rng.choice([0.5 / tps, 1 / tps, 2.5 / tps, 7.0, 1e-9])), []
         for i in range(rng.randint(1, 12)):
             step = rng.choice([0, 0, 1 / tps, 0.5 / tps, rng.random() * 3 / tps, rng.randint(1, 5) / tps, 0.1, 0.29])
             t = t + step
             arrs.append(t)
             if rng.random() < 0.25:
                 # two different arrivals less than a microsecond apart on opposite sides of a tick boundary
-                k = int(t * tps) + 1
+                k = math.floor(t * tps) + 1
                 lo, hi = k / tps - rng.choice([4e-7, 1e-7, 3e-8]), k / tps + rng.choice([4e-7, 1e-7, 3e-8])
                 if lo > t:
                     arrs.extend([lo, hi])
                     t = hi
         rows = "".join(f"p{i},{a!r},QUERY,op1,,1,const,,1\n" for i, a in enumerate(arrs))
         w = CSVWorkloadReader(io.StringIO(hdr + rows)).get_workload(tps)
-        horizon = int(arrs[-1] * tps) + 3 - rng.choice([0, 0, 2])
+        horizon = max(math.floor(arrs[-1] * tps), 0) + 3 - rng.choice([0, 0, 2])
         got, order = {}, []
         for tick in range(max(horizon, 0)):
             for p in w.run_one_tick():
@@ -278,18 +279,35 @@ def tools_files(repo, seed=0, n=40):
     with tempfile.TemporaryDirectory() as d:
         for case in range(n):
             rows, t = [], 0.0
-            for i in range(rng.randint(1, 8)):
+            # "for all traces": a third of the files are not in arrival order (two traces concatenated), a third reuse a
+            # pipeline id for a later, non-adjacent pipeline (the reader loads those as separate pipelines), and a third carry
+            # an extra column and a header in a different order (readers look columns up by name)
+            unsorted_in, reuse_ids, odd_header = rng.random() < 0.35, rng.random() < 0.35, rng.random() < 0.35
+            fcols = list(cols)
+            if odd_header:
+                fcols.append("note")
+                rng.shuffle(fcols)
+            ng = rng.randint(3, 8) if unsorted_in else rng.randint(1, 8)
+            if unsorted_in:
+                t = 1.0
+            for i in range(ng):
                 t += rng.choice([0, 0.001, 0.29, 1.0, rng.random() * 3])
+                if unsorted_in and i == ng // 2:
+                    t = rng.choice([0.0, 0.25, 0.5])       # strictly before everything written so far
+                pid_ = f"p{i - 2}" if (reuse_ids and i >= 2 and i % 2 == 0) else f"p{i}"
                 for j in range(rng.randint(1, 3)):
-                    rows.append({"pipeline_id": f"p{i}", "arrival_seconds": repr(t) if j == 0 else "", "priority": "QUERY" if j == 0 else "",
-                                 "operator_id": f"op{j+1}", "parents": "" if j == 0 else f"op{j}", "baseline_cpu_seconds": str(rng.choice([1, 2.5, 15])),
-                                 "cpu_scaling": rng.choice(["const", "linear3", "sqrt"]), "memory_gb": rng.choice(["", "0", "12.5"]),
-                                 "storage_read_gb": str(rng.choice([0, 10, 37.5]))})
+                    r = {"pipeline_id": pid_, "arrival_seconds": repr(t) if j == 0 else "", "priority": "QUERY" if j == 0 else "",
+                         "operator_id": f"g{i}op{j+1}", "parents": "" if j == 0 else f"g{i}op{j}", "baseline_cpu_seconds": str(rng.choice([1, 2.5, 15])),
+                         "cpu_scaling": rng.choice(["const", "linear3", "sqrt"]), "memory_gb": rng.choice(["", "0", "12.5"]),
+                         "storage_read_gb": str(rng.choice([0, 10, 37.5]))}
+                    if odd_header:
+                        r["note"] = f"n{i}-{j}"
+                    rows.append(r)
             src = os.path.join(d, f"in{case}.csv")
             with open(src, "w", newline="") as f:
-                w = csv.DictWriter(f, fieldnames=cols); w.writeheader(); w.writerows(rows)
+                w = csv.DictWriter(f, fieldnames=fcols); w.writeheader(); w.writerows(rows)
             tps = rng.choice([1, 3, 10, 100, 1000])
-            delta = rng.choice([0, 0.5, 2.0])
+            delta = 0 if (unsorted_in and case % 2 == 0) else rng.choice([0, 0.5, 2.0])
             sd = rng.randint(0, 5)
             outs = {}
             with contextlib.redirect_stdout(io.StringIO()):
@@ -297,7 +315,12 @@ def tools_files(repo, seed=0, n=40):
                 tools.jitter_command(src, os.path.join(d, f"j{case}a.csv"), delta, seed=sd, force=True)
                 tools.jitter_command(src, os.path.join(d, f"j{case}b.csv"), delta, seed=sd, force=True)
             rd = lambda p: list(csv.DictReader(open(p)))
+            hd = lambda p: open(p).readline().rstrip("\r\n").split(",")
             s_rows, ja, jb = rd(os.path.join(d, f"s{case}.csv")), rd(os.path.join(d, f"j{case}a.csv")), rd(os.path.join(d, f"j{case}b.csv"))
+            if hd(os.path.join(d, f"s{case}.csv")) != fcols:
+                problems.append(("snap-changed-the-header", case, hd(os.path.join(d, f"s{case}.csv")), fcols))
+            if hd(os.path.join(d, f"j{case}a.csv")) != fcols:
+                problems.append(("jitter-changed-the-header", case, hd(os.path.join(d, f"j{case}a.csv")), fcols))
             other = lambda r: {k: v for k, v in r.items() if k != "arrival_seconds"}
             if len(s_rows) != len(rows) or any(other(a) != other(b) for a, b in zip(rows, s_rows)):
                 problems.append(("snap-changed-other-columns-or-rows", case))
@@ -310,25 +333,43 @@ def tools_files(repo, seed=0, n=40):
                         problems.append(("snap-out-of-bounds", case, x, y, tps))
             if ja != jb:
                 problems.append(("jitter-not-reproducible", case))
-            key = lambda r: (r["pipeline_id"], r["operator_id"])
             if sorted(map(lambda r: tuple(sorted(other(r).items())), ja)) != sorted(map(lambda r: tuple(sorted(other(r).items())), rows)):
-                problems.append(("jitter-changed-other-columns-or-rows", case))
-            old = {r["pipeline_id"]: float(r["arrival_seconds"]) for r in rows if r["arrival_seconds"]}
-            new, last, seen_p = {}, None, []
-            for r in ja:
-                if r["pipeline_id"] not in seen_p:
-                    seen_p.append(r["pipeline_id"])
-                    if not r["arrival_seconds"]:
-                        problems.append(("jitter-first-row-without-arrival", case)); continue
-                    new[r["pipeline_id"]] = float(r["arrival_seconds"])
-                    if last is not None and new[r["pipeline_id"]] < last:
-                        problems.append(("jitter-not-ascending", case))
-                    last = new[r["pipeline_id"]]
-                elif seen_p[-1] != r["pipeline_id"]:
-                    problems.append(("jitter-pipeline-rows-split", case))
-            for pid_, x in old.items():
-                if pid_ not in new or not (-1e-12 <= new[pid_] - x <= delta + 1e-12):
-                    problems.append(("jitter-out-of-bounds", case, pid_, x, new.get(pid_), delta))
+                problems.append(("jitter-changed-other-columns-or-rows", case, len(ja), len(rows)))
+
+            def groups(rs):
+                # a pipeline = a maximal run of consecutive rows with one pipeline id (how the reader and the tool group rows);
+                # identified by the operator id of its first row, which is unique in these files
+                out = []
+                for r in rs:
+                    if out and out[-1][0]["pipeline_id"] == r["pipeline_id"] and not r["arrival_seconds"]:
+                        out[-1].append(r)
+                    else:
+                        out.append([r])
+                return out
+            gin, gout = groups(rows), groups(ja)
+            old = {g[0]["operator_id"]: (float(g[0]["arrival_seconds"]), [other(r) for r in g]) for g in gin}
+            new, last = {}, None
+            for g in gout:
+                if not g[0]["arrival_seconds"]:
+                    problems.append(("jitter-first-row-without-arrival-or-pipeline-rows-split", case)); continue
+                a_ = float(g[0]["arrival_seconds"])
+                new[g[0]["operator_id"]] = (a_, [other(r) for r in g])
+                if last is not None and a_ < last:
+                    problems.append(("jitter-not-ascending", case, last, a_))
+                last = a_
+            if len(gout) != len(gin):
+                problems.append(("jitter-pipeline-count", case, len(gin), len(gout)))
+            for k_, (x, body) in old.items():
+                if k_ not in new or new[k_][1] != body:
+                    problems.append(("jitter-pipeline-lost-or-rows-split", case, k_))
+                elif not (-1e-12 <= new[k_][0] - x <= delta + 1e-12):
+                    problems.append(("jitter-out-of-bounds", case, k_, x, new[k_][0], delta))
+            # equal new arrivals keep their input order (stable sort)
+            pos = {g[0]["operator_id"]: n_ for n_, g in enumerate(gin)}
+            for g1, g2 in zip(gout, gout[1:]):
+                k1, k2 = g1[0]["operator_id"], g2[0]["operator_id"]
+                if k1 in new and k2 in new and new[k1][0] == new[k2][0] and pos.get(k1, 0) > pos.get(k2, 0):
+                    problems.append(("jitter-equal-arrivals-reordered", case, k1, k2))
     kinds = {}
     for p in problems:
         kinds[p[0]] = kinds.get(p[0], 0) + 1
@@ -676,9 +717,12 @@ def csv_roundtrip(repo, seed=0, n=150):
                 t += rng.choice([0.001, 0.5, 1, 1 / 3, 7.25, 1e-7])
             p = Pipeline(f"orig{i}", rng.choice(list(Priority)))
             ops = []
-            for j in range(rng.randint(1, 6)):
+            for j in range(rng.randint(1, 6) if rng.random() < 0.8 else rng.randint(10, 14)):
                 k = rng.randint(0, min(3, len(ops)))
                 parents = rng.sample(ops, k) if k else None      # k = 0 -> another root, possibly after non-roots
+                if len(ops) >= 10 and rng.random() < 0.5:
+                    # operator ids where one is a prefix of the other (op1 / op10, op1 / op11), in both listing orders
+                    parents = [ops[9], ops[0]] if rng.random() < 0.5 else [ops[0], ops[len(ops) - 1], ops[1]]
                 op = p.new_operator(parents)
                 op.add_segment(Segment(baseline_cpu_seconds=rng.choice(nums), cpu_scaling=rng.choice(laws),
                                        memory_gb=rng.choice([None, None, 0, 0.0, 5, 0.001, 1e6]), storage_read_gb=rng.choice(nums)))
@@ -740,6 +784,8 @@ def csv_roundtrip(repo, seed=0, n=150):
     bad = {"missing-priority-first-row": "p1,1.5,,op1,,1,const,,10\n", "missing-arrival-first-row": "p1,,QUERY,op1,,1,const,,10\n",
            "priority-on-later-row": "p1,1.5,QUERY,op1,,1,const,,10\np1,,QUERY,op2,op1,2,const,,5\n",
            "arrival-on-later-row": "p1,1.5,QUERY,op1,,1,const,,10\np1,1.5,,op2,op1,2,const,,5\n",
+           "arrival-and-priority-on-later-row": "p1,1.5,QUERY,op1,,1,const,,10\np1,2.5,QUERY,op2,,2,const,,5\n",
+           "same-arrival-and-priority-on-later-row": "p1,1.5,QUERY,op1,,1,const,,10\np1,1.5,BATCH_PIPELINE,op2,op1,2,const,,5\n",
            "zero-arrival-on-later-row": "p1,0,QUERY,op1,,1,const,,10\np1,0,,op2,op1,2,const,,5\n",
            "zero-point-zero-arrival-on-later-row": "p1,1.5,QUERY,op1,,1,const,,10\np1,0.0,,op2,op1,2,const,,5\n",
            "unknown-priority": "p1,1.5,URGENT,op1,,1,const,,10\n", "unknown-scaling-law": "p1,1.5,QUERY,op1,,1,cubic,,10\n",
@@ -760,7 +806,7 @@ def csv_roundtrip(repo, seed=0, n=150):
     kinds = {}
     for pb in problems:
         kinds[pb[0]] = kinds.get(pb[0], 0) + 1
-    return {"name": "bounded:csv-roundtrip", "ok": not problems, "bounded": f"{n} random workloads (<= 6 pipelines x <= 6 operators), 10 malformed files",
+    return {"name": "bounded:csv-roundtrip", "ok": not problems, "bounded": f"{n} random workloads (<= 6 pipelines x <= 14 operators), 12 malformed files",
             "cases": n, "kinds": kinds, "finding_kinds": sorted(kinds), "witness": [list(map(str, p))[:5] for p in problems[:3]],
             "detail": "round trips exact; malformed files refused" if not problems else str(kinds)}
 
